@@ -17,33 +17,49 @@ def enum_overlay():
     return m
 
 
-def build(name, test_pkg, files, hide_repo_tests=True, extra_overlay=None):
-    """files: {name in test_pkg dir: real path}.  test_pkg may be a virtual directory."""
+def build(name, test_pkg, files, hide_repo_tests=True, extra_overlay=None, race=False):
+    """files: {name in test_pkg dir: real path}.  test_pkg may be a virtual directory.  A package-level
+    harness identifier colliding with one of the package under test is renamed in a copy (vlib.rename_copies)."""
     t0 = time.time()
     work = vlib.workdir(name)
     mf = vlib.modfile(work)
-    overlay = {}
-    overlay.update(enum_overlay())
-    overlay.update(vlib.vs_overlay())
-    if hide_repo_tests:
-        for f in glob.glob(os.path.join(vlib.REPO, test_pkg, "*_test.go")):
-            overlay[f] = ""
-    for fn, real in files.items():
-        overlay[os.path.join(vlib.REPO, test_pkg, fn)] = real
-    if extra_overlay:
-        overlay.update(extra_overlay)
-    ov = os.path.join(work, "overlay.json")
-    json.dump({"Replace": overlay}, open(ov, "w"), indent=1)
-    out = os.path.join(work, "e.test")
-    if os.path.exists(out):
-        os.remove(out)  # never run a stale binary if the build fails
-    cmd = ["go", "test", "-c", "-overlay", ov, "-modfile", mf, "-vet=off", "-ldflags=-checklinkname=0", "-o", out, "./" + test_pkg]
-    vlib.run(cmd, cwd=vlib.REPO)
-    vlib.log("[build] %s in %.1fs" % (name, time.time() - t0))
-    return out
+    renames = {}
+    for attempt in range(6):
+        overlay = {}
+        overlay.update(enum_overlay())
+        overlay.update(vlib.vs_overlay())
+        if hide_repo_tests:
+            for f in glob.glob(os.path.join(vlib.REPO, test_pkg, "*_test.go")):
+                overlay[f] = ""
+        for fn, real in vlib.rename_copies(files, renames, work).items():
+            overlay[os.path.join(vlib.REPO, test_pkg, fn)] = real
+        if extra_overlay:
+            overlay.update(extra_overlay)
+        ov = os.path.join(work, "overlay.json")
+        json.dump({"Replace": overlay}, open(ov, "w"), indent=1)
+        out = os.path.join(work, "e.test")
+        if os.path.exists(out):
+            os.remove(out)  # never run a stale binary if the build fails
+        cmd = ["go", "test", "-c", "-overlay", ov, "-modfile", mf, "-vet=off", "-ldflags=-checklinkname=0", "-o", out] + (["-race"] if race else []) + ["./" + test_pkg]
+        p = vlib.run(cmd, cwd=vlib.REPO, check=False)
+        if p.returncode == 0:
+            if renames:
+                vlib.log("[build] harness identifiers renamed to avoid collisions with the package: %s" % ", ".join(sorted(renames)))
+            vlib.log("[build] %s in %.1fs" % (name, time.time() - t0))
+            return out
+        new = vlib.collisions(p.stdout, renames)
+        if not new:
+            break
+        for n in new:
+            renames[n] = "verifh_" + n
+    vlib.log("command failed:", " ".join(cmd))
+    vlib.log(p.stdout or "")
+    raise SystemExit(2)
 
 
-def run(binary, test, tier, budget_s, nshards=None, env_extra=None):
+def run(binary, test, tier, budget_s, nshards=None, env_extra=None, accept_test_failure=False):
+    """accept_test_failure: a shard that wrote its result file counts even if the test binary exits 1
+    (race builds: the testing package fails a test during which the detector reported a race)."""
     nshards = nshards or vlib.NPROC
     work = os.path.dirname(binary)
     procs = []
@@ -63,7 +79,7 @@ def run(binary, test, tier, budget_s, nshards=None, env_extra=None):
     for s, (p, lf, out) in enumerate(procs):
         rc = p.wait()
         lf.close()
-        if rc != 0 or not os.path.exists(out):
+        if (rc != 0 and not (accept_test_failure and rc == 1)) or not os.path.exists(out):
             failed.append((s, rc))
             continue
         merged = merge(merged, json.load(open(out)))
